@@ -84,7 +84,7 @@ Definition mem_sec (k : list string) (known : list (list string)) : bool := exis
 Record shared := {
   sh_defaults : list (list string);
   sh_defines : list (string * list string);
-  sh_content : list (string * list string);       (* (section, tokens) *)
+  sh_content : list (string * list string * option (string * bool));   (* (section, tokens, conditional open when read) *)
   sh_blocks : list (list string);                 (* molecule-type blocks handed to read_itp *)
   sh_mols : list (string * string)                (* instantiated [molecules] entries *)
 }.
@@ -181,7 +181,7 @@ Section Director.
       if String.eqb name "implicit_genborn_params" || String.eqb name "cmaptypes" || String.eqb name "macros" then Ok s
       else let sh := d_sh s in
            Ok (with_sh s {| sh_defaults := sh_defaults sh; sh_defines := sh_defines sh;
-                            sh_content := (sh_content sh ++ [(name, tokens line)])%list;
+                            sh_content := (sh_content sh ++ [(name, tokens line, d_meta s)])%list;
                             sh_blocks := sh_blocks sh; sh_mols := sh_mols sh |})
     | _ => Err ErrIO
     end.
